@@ -250,7 +250,10 @@ func (l *Lexer) GetLineAndCol(pos int) (string, int, int) {
 	col := 1
 	lineStart := 0
 	inLine := false
-	for i, r := range l.src {
+	// positions are byte offsets: scan bytes, so that an offset inside a
+	// multi-byte character is found too
+	for i := 0; i < len(l.src); i++ {
+		r := l.src[i]
 		if r == '\n' {
 			if inLine {
 				return l.src[lineStart:i], line, col
